@@ -88,6 +88,14 @@ def proj_comp(lw):
                 n, d = proj_frac(f)
                 if n > 0:
                     l = l * d // math.gcd(l, d)
+                elif n == -2:
+                    # not a fraction with denominator <= DEN_LIMIT. A genuine mixture whose exact denominator is
+                    # moderately larger (legitimate, but outside TLC's 32 bit range) is "unsupported", not wrong:
+                    # it is matched very tightly by a fraction with denominator <= 200000, which an arbitrary
+                    # (wrong) real number is not (probability about 1 %).
+                    fr = Fraction(float(f)).limit_denominator(200000)
+                    if abs(float(fr) - float(f)) <= 1e-13:
+                        supported = False
                 entries.append([str(nm), n, d])
             if l > LCM_LIMIT:
                 supported = False
